@@ -597,6 +597,9 @@ func (g *G) Value(depth int) types.Value {
 		return types.String(pick(g, IDs))
 	case 10:
 		k := g.T.Intn(4)
+		if k == 0 && g.T.Bool() {
+			return types.Set{} // the zero value
+		}
 		vs := make([]types.Value, 0, k)
 		for i := 0; i < k; i++ {
 			vs = append(vs, g.Value(depth-1))
@@ -609,6 +612,14 @@ func (g *G) Value(depth int) types.Value {
 
 func (g *G) Record(depth int) types.Record {
 	k := g.T.Intn(4)
+	if k == 0 {
+		switch g.T.Intn(3) {
+		case 1:
+			return types.Record{} // the zero value
+		case 2:
+			return types.NewRecord(nil)
+		}
+	}
 	m := types.RecordMap{}
 	for i := 0; i < k; i++ {
 		m[types.String(g.attrName())] = g.Value(depth)
@@ -634,6 +645,10 @@ func (g *G) Entities() types.EntityMap {
 			e := types.Entity{UID: uid, Parents: types.NewEntityUIDSet(ps...), Attributes: g.Record(1)}
 			if g.T.Intn(3) == 2 {
 				e.Tags = g.Record(1)
+			}
+			if g.T.Intn(10) == 9 {
+				// zero-value members: no parents set, no attribute record at all
+				e = types.Entity{UID: uid}
 			}
 			em[uid] = e
 		}
